@@ -467,9 +467,9 @@ pub fn run(ctx: &mut Ctx) {
             case.pres = present::present(&case.abs, "iccma", &mut rng);
             ctx.case_begin(&json!({"family": family, "i": i, "n": case.abs.n}));
             let t0 = std::time::Instant::now();
-            eval_base(ctx, &case, &mut rng);
+            crate::report::guarded(ctx, |ctx| eval_base(ctx, &case, &mut rng));
             if rng.pct(10) {
-                eval_cli(ctx, &case, &mut rng);
+                crate::report::guarded(ctx, |ctx| eval_cli(ctx, &case, &mut rng));
             }
             ctx.maximum("slowest_base_ms", t0.elapsed().as_millis() as u64);
         }
